@@ -230,7 +230,7 @@ func locksetRule(c *Check, rule string, rel string, structName, lockName string,
 			}
 			n++
 			seen[fv] = true
-			if !locksHeldAtIP(p, fi, sel.Pos())[lockF] {
+			if !locksHeldAtNode(p, fi, sel)[lockF] {
 				if _, has := bad[fv]; !has {
 					bad[fv] = sel.Pos()
 				}
@@ -304,7 +304,7 @@ func callbackBuiltUnderLock(p *Prog, pk *packagesPkg, fi *FuncInfo, lockF *types
 			}
 			if !isArg {
 				msg = "a " + T.Obj().Name() + " is built at " + p.Pos(cl.Pos()) + " other than as a call argument (its callbacks may run outside the critical section)"
-			} else if !locksHeldAtIP(p, g, cl.Pos())[lockF] {
+			} else if !locksHeldAtNode(p, g, cl)[lockF] {
 				msg = "a " + T.Obj().Name() + " is handed out at " + p.Pos(cl.Pos()) + " without " + objName(lockF) + " held; its callback touches the protected state"
 			}
 			return true
